@@ -83,6 +83,11 @@ class UpdateReferences:
       self.__update_reference_in_list(value, oldref, newref)
 
   def __update_reference_in_list(self, lst, oldref, newref):
+    if newref is None:
+      # the removed line is dropped from the list
+      lst[:] = [e for e in lst if not (e is oldref or \
+                 (isinstance(e, gfapy.OrientedLine) and e.line is oldref))]
+      return
     found = False
     for idx, elem in enumerate(lst):
       if isinstance(elem, gfapy.Line):
